@@ -257,4 +257,14 @@ theorem covers_dst : ∀ (ps : List Patch) (lo hi : Nat), Sorted ps →
     · obtain ⟨q, hq, hq'⟩ := covers_dst ps (p.dst + p.size) hi hs.2 hb' hp.2 (by omega) w (by omega) h2
       exact ⟨q, List.mem_cons_of_mem _ hq, hq'⟩
 
+theorem carried_le_old (o n : Sk) : carried (diff o n) ≤ o.size := by
+  have g := diff_good o n
+  simpa using carried_le_src (diff o n) 0 o.size g.sorted (fun p hp => ⟨Nat.zero_le _, (g.within p hp).1⟩)
+    (Nat.zero_le _)
+
+theorem carried_le_new (o n : Sk) : carried (diff o n) ≤ n.size := by
+  have g := diff_good o n
+  simpa using carried_le_dst (diff o n) 0 n.size g.sorted (fun p hp => ⟨Nat.zero_le _, (g.within p hp).2⟩)
+    (Nat.zero_le _)
+
 end Mimium.StateTree
